@@ -76,9 +76,8 @@ func init() {
 
 func genC19(ctx *fw.Ctx) []fw.Case {
 	srcs := baseSources()
-	if ctx.Thorough() {
-		srcs = append(srcs, corpus.StressSources(ctx.Rand("stress"), 40, 20, 200)...)
-	}
+	srcs = append(srcs, corpus.StressSources(ctx.Rand("stress"), ctx.Pick(20, 300), 20, 200)...)
+	srcs = append(srcs, mgenSources(ctx, ctx.Pick(60, 1500))...)
 	var cases []fw.Case
 	for _, s := range srcs {
 		s := s
